@@ -9,6 +9,15 @@
 //     later frame reuses the id of a completed one.
 // Bounded: ids < 2, total <= 3, a history of STEPS operations (datagram or clock tick).
 #![allow(dead_code, unused_variables, unused_mut, static_mut_refs, unused_imports)]
+// `tracing::level!(..)` written with its path by an edit keeps compiling (log statements have no effect on the checks)
+pub mod tracing {
+    macro_rules! trace { ($($t:tt)*) => { () } }
+    macro_rules! debug { ($($t:tt)*) => { () } }
+    macro_rules! info { ($($t:tt)*) => { () } }
+    macro_rules! warn_ { ($($t:tt)*) => { () } }
+    macro_rules! error { ($($t:tt)*) => { () } }
+    pub(crate) use {trace, debug, info, warn_ as warn, error};
+}
 
 pub const IDS: usize = 2;
 pub const MAXT: usize = 3;
